@@ -571,6 +571,18 @@ namespace bloch::runtime {
         m_gcCv.notify_all();
         if (m_gcThread.joinable())
             m_gcThread.join();
+        // Release every object that is still alive while the class table and the qubit
+        // tables exist: members are destroyed in reverse declaration order, so objects
+        // held by the scope stack, the return slot or static storage would otherwise be
+        // destroyed after the metadata their deleter reads. The run is over, so no user
+        // destructor code is executed here.
+        for (auto& w : m_heap) {
+            if (auto obj = w.lock())
+                obj->skipDestructor = true;
+        }
+        m_returnValue = {};
+        m_env.clear();
+        for (auto& kv : m_classTable) kv.second->staticStorage.clear();
     }
 
     Value RuntimeEvaluator::lookup(const std::string& name) {
